@@ -13,6 +13,8 @@
 -/
 import Vt.Props.GridDraw
 import Vt.Props.C10b
+import Vt.Props.C13
+import Vt.Props.C02
 namespace Vt.C01
 open Vt Vt.Recv Vt.C19 Vt.C09 Vt.RowDraw Vt.GridDraw Vt.Tok
 set_option linter.unusedSimpArgs false
@@ -319,5 +321,170 @@ theorem contents_formatted_reproduces (hW : WOk W) {q : Parser} (hq : RecvOk W q
     rw [w2, w1]
     simp only [C10.inputModes, withRS, Screen.setCur]
     split <;> rfl
+
+/-- **C01, `state_formatted`**: the same, plus the five input modes, on a receiver whose mouse mode and
+encoding are at their defaults (a new parser) -/
+theorem state_formatted_reproduces (hW : WOk W) {q : Parser} (hq : RecvOk W q)
+    (hqoff : (rsOf q.ws).g.scrollbackOffset = 0) (hm : q.screen.mouseMode = .none) (he : q.screen.mouseEnc = .default)
+    (S : Screen) (hS : SrcScreen W S) (hsz : S.cur.size = (rsOf q.ws).g.size) :
+    ∃ bytes q', S.stateFormatted = .ok bytes ∧ q.process W cb bytes = .ok q' ∧ Ready q' ∧
+      Shows q'.screen S ∧ C10.inputModes q'.screen = C10.inputModes S ∧ q'.ws.events = q.ws.events := by
+  obtain ⟨cbytes, q1, ec, e1, r1, hsh, hev, hmodes⟩ := contents_formatted_reproduces (cb := cb) hW hq hqoff S hS hsz
+  have hm1 : q1.ws.screen.mouseMode = .none := by
+    have := congrArg C10.InputModes.mouseMode hmodes; exact this.trans hm
+  have he1 : q1.ws.screen.mouseEnc = .default := by
+    have := congrArg C10.InputModes.mouseEnc hmodes; exact this.trans he
+  obtain ⟨q2, e2, w2, r2⟩ := C10.process_input_mode_formatted W cb q1 S r1 hm1 he1
+  have hcar : (q.vte.advance cbytes).1.carry = [] := by rw [← process_vte W cb e1]; exact r1.2
+  have ec' : S.writeContentsFormatted = .ok cbytes := ec
+  refine ⟨cbytes ++ S.inputModeFormatted, q2, ?_, ?_, r2, ?_, ?_, ?_⟩
+  · simp only [Screen.stateFormatted, ec', ok_bind, pure_eq_ok, Screen.inputModeFormatted]
+  · rw [C04.process_append W cb q _ _ hq.ready.2 hcar, e1]; exact e2
+  · have hs : q2.screen = C10.setInputModes q1.screen (C10.inputModes S) := by
+      show q2.ws.screen = _; rw [w2]; rfl
+    have hcur : q2.screen.cur = q1.screen.cur := by rw [hs]; rfl
+    exact ⟨by rw [hcur]; exact hsh.size, by rw [hcur]; exact hsh.cells, by rw [hcur]; exact hsh.wrapped,
+      by rw [hcur]; exact hsh.cursor, by rw [hs]; exact hsh.hide, by rw [hs]; exact hsh.pen,
+      by rw [hcur]; exact hsh.off⟩
+  · show C10.inputModes q2.ws.screen = _
+    rw [w2]; rfl
+  · show q2.ws.events = _
+    rw [w2]; exact hev
+
+/-- what `obs` computes when the view is not scrolled back -/
+theorem obs_offset0 (s : Screen) (h : s.cur.scrollbackOffset = 0) :
+    obs s = .ok { size := s.cur.size, cells := s.cur.rows.map (fun r => r.cells.map cellObs),
+                  wrapped := s.cur.rows.map (fun r => r.wrapped), cursor := s.cur.pos, hide := s.hideCursor,
+                  pen := s.attrs,
+                  modes := (s.appKeypad, s.appCursor, s.bracketedPaste, s.mouseMode, s.mouseEnc) } := by
+  simp [obs, C19.visibleRows_offset0 _ h]
+
+/-- **C01 in terms of `obs`**: after `state_formatted` the receiver's observable state IS the source's -/
+theorem shows_obs {q S : Screen} (h : Shows q S) (hm : C10.inputModes q = C10.inputModes S)
+    (hoff : S.cur.scrollbackOffset = 0) : obs q = obs S := by
+  rw [obs_offset0 q h.off, obs_offset0 S hoff]
+  simp only [C10.inputModes, C10.InputModes.mk.injEq] at hm
+  obtain ⟨m1, m2, m3, m4, m5⟩ := hm
+  rw [h.size, h.cells, h.wrapped, h.cursor, h.hide, h.pen, m1, m2, m3, m4, m5]
+
+/-- a new parser is a valid receiver -/
+theorem new_recvOk (W : Nat → Option Nat) (rows cols sb : Nat) (hr : 1 ≤ rows) (hc : 1 ≤ cols) (hr' : rows ≤ 65535)
+    (hc' : cols ≤ 65535) :
+    ∃ q, Parser.new rows cols sb = .ok q ∧ RecvOk W q ∧ (rsOf q.ws).g.scrollbackOffset = 0 ∧
+      (rsOf q.ws).g.size = ⟨rows, cols⟩ ∧ q.screen.mouseMode = .none ∧ q.screen.mouseEnc = .default := by
+  obtain ⟨hnew, hinv⟩ := C13.inv_new W rows cols sb hr hc hr' hc'
+  refine ⟨{ vte := Vte.new, ws := { screen := C13.newScreen rows cols sb, events := [] } }, by simp [Parser.new, hnew],
+    ⟨⟨rfl, rfl⟩, ?_, ?_⟩, rfl, rfl, rfl, rfl⟩
+  · refine ⟨hr, hc, hr', hc', rfl, rfl, rfl, by simp [rsOf, Screen.cur, C13.newScreen, C13.newGrid], ?_⟩
+    intro r hr0
+    simp only [rsOf, Screen.cur, C13.newScreen, C13.newGrid, Bool.false_eq_true, ↓reduceIte, List.mem_replicate] at hr0
+    rw [hr0.2]; simp [Row.new, rsOf, Screen.cur, C13.newScreen, C13.newGrid]
+  · intro r hr0
+    have hg := ((inv_iff W _).mp hinv).grid
+    exact (hg.row_ok r hr0).2
+
+/-! ### the hypotheses follow from the Boolean invariants the checks evaluate on every visited state -/
+
+theorem srcOk_of {cols : Nat} {r : Row} (hok : rowOk W r = true) (hlen : r.cells.length = cols)
+    (hem : rowEmitOk W cols r = true) (hpl : rowPlusOk r = true) : SrcOk W r.cells := by
+  obtain ⟨_, hci⟩ := (rowOk_iff W r).mp hok
+  refine ⟨hci.cells_ok, hci.paired, ?_, ?_⟩
+  · intro j hj
+    simp only [rowEmitOk, List.all_eq_true] at hem
+    have := hem (r.cells[j], j) (by
+      rw [List.mem_zipIdx_iff_getElem?]; simp [List.getElem?_eq_getElem hj])
+    rw [hlen]; exact this
+  · intro c hc hcont
+    simp only [rowPlusOk, Bool.and_eq_true, List.all_eq_true, Bool.or_eq_true, Bool.not_eq_true', beq_iff_eq] at hpl
+    rcases hpl.2 c hc with h | h
+    · rw [hcont] at h; simp at h
+    · exact h
+
+theorem lastOcc_of {r : Row} (hpl : rowPlusOk r = true) (hw : r.wrapped = true) : lastOcc r.cells := by
+  simp only [rowPlusOk, Bool.and_eq_true, Bool.or_eq_true, Bool.not_eq_true'] at hpl
+  rcases hpl.1 with h | h
+  · rw [hw] at h; simp at h
+  · simp only [lastColOccupied] at h
+    cases hl : r.cells.getLast? with
+    | none => rw [hl] at h; simp at h
+    | some c =>
+      rw [hl] at h
+      have hne : r.cells ≠ [] := by intro hn; simp [hn] at hl
+      have hpos : 0 < r.cells.length := List.length_pos_iff.mpr hne
+      refine ⟨hpos, ?_⟩
+      have : r.cells[r.cells.length - 1] = c := by
+        rw [List.getLast?_eq_getElem?, List.getElem?_eq_getElem (by omega)] at hl
+        exact Option.some.inj hl
+      rw [this]
+      simpa using h
+
+theorem srcRows_of {g : Grid} {un : Bool} (hg : GridInv W g un) (hpl : gridPlusOk g = true)
+    (hem : gridEmitOk W g = true) : SrcRows W g.size.cols g.rows := by
+  simp only [gridPlusOk, Bool.and_eq_true, List.all_eq_true] at hpl
+  simp only [gridEmitOk, List.all_eq_true] at hem
+  refine ⟨fun r hr => (hg.row_ok r hr).1, fun r hr => srcOk_of (hg.row_ok r hr).2 (hg.row_ok r hr).1 (hem r hr) (hpl.1.1 r hr),
+    fun r hr hw => lastOcc_of (hpl.1.1 r hr) hw, ?_⟩
+  intro r hr
+  have := hpl.2
+  rw [hr] at this
+  simpa using this
+
+/-- **every screen that satisfies the Boolean invariants, is not scrolled back and whose cursor is inside
+its line is a valid source** -/
+theorem srcScreen_of_inv {S : Screen} (hinv : emitInvB W S = true) (hoff : S.cur.scrollbackOffset = 0)
+    (hcur : S.cur.pos.col < S.cur.size.cols) : SrcScreen W S := by
+  simp only [emitInvB, invPlusB, Bool.and_eq_true] at hinv
+  obtain ⟨⟨⟨⟨⟨hI, hp1⟩, hp2⟩, he1⟩, he2⟩, ha⟩ := hinv
+  have hsi := (inv_iff W S).mp hI
+  obtain ⟨hcg, hal⟩ := hsi.cur
+  have hrows : SrcRows W S.cur.size.cols S.cur.rows := by
+    unfold Screen.cur
+    cases hs : S.altScreen
+    · simpa using srcRows_of hsi.grid hp1 he1
+    · simpa using srcRows_of hsi.alt hp2 he2
+  exact ⟨hoff, hrows, hal, hcg.pos_row, hcur, attrs_wf_of_ok ha⟩
+
+/-- **C01** (cursor inside its line): for every screen `S` satisfying `Inv`, `Inv⁺`, `emitInv`, not scrolled back,
+feeding the bytes of `S.state_formatted()` to a NEW parser of the same size (any scrollback capacity) yields a
+screen whose observable state equals `S`'s — cells, wide/continuation flags, colours and attributes, wrap
+flags, cursor, cursor visibility, pen, input modes — and reports no event -/
+theorem full_redraw_fresh (hW : WOk W) (S : Screen) (hinv : emitInvB W S = true) (hoff : S.cur.scrollbackOffset = 0)
+    (hcur : S.cur.pos.col < S.cur.size.cols) (sb : Nat) :
+    ∃ q bytes q', Parser.new S.cur.size.rows S.cur.size.cols sb = .ok q ∧ S.stateFormatted = .ok bytes ∧
+      q.process W cb bytes = .ok q' ∧ obs q'.screen = obs S ∧ q'.ws.events = [] := by
+  have hS := srcScreen_of_inv hinv hoff hcur
+  have hI : Inv W S := by
+    simp only [emitInvB, invPlusB, Bool.and_eq_true] at hinv
+    exact hinv.1.1.1.1.1
+  obtain ⟨hcg, _⟩ := ((inv_iff W S).mp hI).cur
+  obtain ⟨q, enew, hq, hqoff, hqsz, hm, he⟩ := new_recvOk W S.cur.size.rows S.cur.size.cols sb hcg.rows_pos hcg.cols_pos
+    hcg.rows_u16 hcg.cols_u16
+  obtain ⟨bytes, q', eb, ep, _, hsh, hmodes, hev⟩ := state_formatted_reproduces (cb := cb) hW hq hqoff hm he S hS
+    (by rw [hqsz])
+  refine ⟨q, bytes, q', enew, eb, ep, shows_obs hsh hmodes hoff, ?_⟩
+  rw [hev]
+  simp only [Parser.new, C13.new_eq _ _ _ hcg.rows_pos, ok_bind, pure_eq_ok, Except.ok.injEq] at enew
+  rw [← enew]
+
+/-- the kernel-evaluation width function satisfies the assumptions -/
+theorem wOk_W0 : WOk W0 := by
+  refine ⟨by decide, ?_, ?_, by decide⟩
+  · intro c hc
+    simp only [W0]
+    rw [if_pos (by simp; omega)]
+  · intro c h1 h2
+    simp only [W0]
+    rw [if_pos (by simp; omega)]
+
+/-- the hypotheses of `full_redraw_fresh` are satisfiable by a non-trivial screen: wide and combining
+characters, colours, a wrapped line, an erase run with a background colour (kernel-evaluated; a test) -/
+theorem full_redraw_fresh_nonvacuous :
+    isOkTrue (do
+      let p ← C02.run 3 4 0 [[0x1b, 0x5b, 0x33, 0x31, 0x3b, 0x34, 0x6d, 97, 0xCC, 0x81, 0xE4, 0xB8, 0x80, 98, 99, 100,
+                              0x1b, 0x5b, 0x34, 0x32, 0x6d, 0x1b, 0x5b, 0x4b, 13]]
+      let s := p.screen
+      pure (emitInvB W0 s && s.cur.scrollbackOffset == 0 && decide (s.cur.pos.col < s.cur.size.cols) &&
+            (s.cur.rows.any (·.wrapped)))) = true := by
+  decide +kernel
 
 end Vt.C01
